@@ -122,8 +122,8 @@ silent(["C16"], CLI, "    if len([x for x in [file, cmd, mod, eval_] if x is not
 # ---- C03
 fire("C03", B, "return 1 if arg <= 0xFF else 2 if arg <= 0xFFFF else 3 if arg <= 0xFFFFFF else 4", "return 1 if arg < 0xFF else 2 if arg <= 0xFFFF else 3 if arg <= 0xFFFFFF else 4")
 fire("C03", B, "bytes_.append((arg_value >> (8 * i)) & 0xFF)", "bytes_.append((arg_value >> (4 * i)) & 0xFF)")
-fire("C03", B, "                        and n_instructions != _instrsize(new_arg_value)\n", "                        and n_instructions < _instrsize(new_arg_value) - 1\n")
-fire("C03", B, "            n_args = instruction._n_args_override or _instrsize(arg_value)\n            # Duplicate", "            n_args = _instrsize(arg_value)\n            # Duplicate")
+fire("C03", B, "                    if n_instructions != _n_args(instruction, new_arg_value):\n", "                    if n_instructions < _n_args(instruction, new_arg_value) - 1:\n")
+fire("C03", B, "            n_args = _n_args(instruction, arg_value)\n            # Duplicate", "            n_args = _instrsize(arg_value)\n            # Duplicate")
 fire("C03", B, "    constants = FromArgs[ConstantValue](_hash_fn=constant_key)", "    constants = FromArgs[ConstantValue]()")
 fire("C03", B, "        if sorted(self._i_to_arg) != list(range(len(self._i_to_arg))):", "        if self._i_to_arg and max(self._i_to_arg) < len(self._i_to_arg) - 1:")
 fire("C03", B, "            if self._hash_fn(self._i_to_arg[i]) != self._hash_fn(arg):", "            if self._i_to_arg[i] != arg:", "the original defect")
@@ -293,3 +293,8 @@ silent(["C08", "C02", "C03"], "code_data/_constants.py", "    if isinstance(valu
 fire("C07", J, "    if \"int\" in value:\n        return int(value[\"int\"])\n    if \"target\" in value:", "    if \"target\" in value:", "the original defect: a big operand written as {int} is not read back (R07.2)")
 fire("C07", J, "        return NoArg(**{**value, \"_arg\": cast(int, arg_from_json(value[\"_arg\"]))})", "        return NoArg(**value)", "same for NoArg._arg (R07.2)")
 fire("C11", L, "            if (bytecode_offset - last_bytecode_offset) > current_item.bytecode_offset:\n", "            if False and (bytecode_offset - last_bytecode_offset) > current_item.bytecode_offset:\n", "the original defect: an odd lnotab increment hangs the walk (R11.H)")
+fire("C03", B, "        if docstring_is_none and arg_is_string and arg._index_override == 0:\n", "        if False and docstring_is_none and arg_is_string and arg._index_override == 0:\n", "the original defect: str pinned at slot 0 of a docstring-less function accepted (R03.D)")
+fire("C03", B, "        if docstring_is_none and arg_is_string and arg._index_override == 0:\n", "        if docstring_is_none and arg._index_override == 0:\n", "refuses every constant pinned at 0, e.g. the None (R03.D)")
+fire("C03", B, "    return max(instruction._n_args_override or 1, _instrsize(arg_value))", "    return instruction._n_args_override or _instrsize(arg_value)", "the original defect: a recorded width truncates a grown operand (R03.5)")
+fire("C03", B, "                    if n_instructions != _n_args(instruction, new_arg_value):", "                    if not instruction._n_args_override and n_instructions != _instrsize(new_arg_value):", "no new layout pass when a jump outgrows its recorded width (R03.7)")
+silent(["C03", "C05", "C01", "C06"], B, "    return max(instruction._n_args_override or 1, _instrsize(arg_value))", "    minimal = _instrsize(arg_value)\n    recorded = instruction._n_args_override\n    return minimal if recorded is None or recorded < minimal else recorded", "the same maximum spelled out")
